@@ -60,7 +60,8 @@ def lengths_for(c):
     return sorted(set(x for x in (0, 1, c - 1, c, c + 1, 3 * c + 1) if x >= 0))
 
 
-WRITE_PATHS = ["writebytes", "upload", "writefile", "appendbytes", "piecewise", "copy", "move", "copy_file"]
+WRITE_PATHS = ["writebytes", "upload", "writefile", "appendbytes", "piecewise", "copy", "move", "copy_file",
+               "append_seek", "append_plus_lines"]
 READ_PATHS = ["readbytes", "download", "read", "readinto", "readline", "iterate", "hash", "getsize"]
 
 
@@ -81,6 +82,23 @@ def write_path(fsx, how, path, data, chunk):
         with fs.openbin(path, "w") as f:
             for i in range(0, len(data), step):
                 f.write(data[i:i + step])
+    elif how == "append_seek":
+        # io semantics of append mode: every write lands at the end, wherever the position is
+        third = len(data) // 3
+        fs.writebytes(path, data[:third])
+        with fs.openbin(path, "a") as f:
+            f.write(data[third:2 * third])
+            f.seek(0)
+            f.write(data[2 * third:])
+    elif how == "append_plus_lines":
+        half = len(data) // 2
+        fs.writebytes(path, data[:half])
+        with fs.openbin(path, "a+") as f:
+            f.seek(0)
+            f.read(1)
+            rest = data[half:]
+            step = max(1, (chunk or 7))
+            f.writelines([rest[i:i + step] for i in range(0, len(rest), step)])
     elif how == "copy":
         fs.writebytes(path + ".src", data)
         fs.copy(path + ".src", path, overwrite=True)
